@@ -95,7 +95,9 @@ ARGUMENT_HERE = {("tree", "Load"), ("sv", "DecryptBad")}
 
 def case_key(ev):
     # ("tree" is the result of PersistMachine's Render / RoundTrip but the *argument* of a Load)
-    return canon({k: v for k, v in ev.items() if k not in RESULT_FIELDS or (k, ev.get("op")) in ARGUMENT_HERE})
+    op = ev.get("op")
+    op = op if isinstance(op, str) else None
+    return canon({k: v for k, v in ev.items() if k not in RESULT_FIELDS or (k, op) in ARGUMENT_HERE})
 
 
 class Mismatch:
